@@ -540,3 +540,82 @@ MAIN_NAMES = {"handle_reach_logic_merge_point",
               "handle_reach_potential_merge_point",
               "update_puml_graph_with_event_node", "handle_logic_node_cases",
               "create_kill_node", "add_puml_edge", "create_event_node"}
+
+
+# ---- loading a model file: every entry becomes an event with all its sets
+_EI = "each(P:eventInputs)"
+_NEWEV2 = f"Event({_EI}.eventType)"
+_DUP = ("cmp", f"{_EI}.eventType", "In", "{}", "0")
+
+
+def _sets(field: str) -> str:
+    x = f"each(each({_EI}.{field}))"
+    return f"[{x}.eventType for.. times(range({x}.count))]"
+
+
+LOADER_TABLE: dict[str, list[tuple]] = {
+    "event_inputs_to_events": [
+        ("every entry of the file becomes an event under its own type (the "
+         "only entry that is not stored is a duplicate, which raises)",
+         "store", "", f"{{}}[{_EI}.eventType]", (_NEWEV2,), [_DUP], [], ""),
+        ("the events loaded are the events returned", "ret", "", "", ("{}",),
+         [], [], ""),
+    ],
+}
+
+
+# ---- a path arrives at a potential merge point of the open block
+MP_ABBR = [("P:logic_list[USub(1)]", "LB")]
+_NM = ("truth", "LB.handle_path_merge(P:next_node_class)", "0")
+_STUCK = ("cmp", "len(LB.merge_nodes)", "Lt", "LB.merge_counter", "1")
+_IMP1 = ("truth", "LB.impossible_and_or_merges[USub(1)]", "1")
+_IMP0 = ("truth", "LB.impossible_and_or_merges[USub(1)]", "0")
+_ANY1 = ("truth", "any(LB.impossible_and_or_merges)", "1")
+_ANY0 = ("truth", "any(LB.impossible_and_or_merges)", "0")
+_I = "each(range(len(LB.paths)))"
+_MC = "upto(Counter(LB.merge_nodes).most_common())"
+_ARGS4 = "P:puml_graph,P:logic_list,P:previous_puml_node,P:previous_node_class"
+MP_TABLE = [
+    ("a block that cannot merge and keeps seeing the same merge nodes is "
+     "stuck; its counter restarts", "store", "", "LB.merge_counter", ("0",),
+     [_NM, _STUCK], []),
+    ("stuck on an impossible AND / OR merge of the CURRENT path: only the "
+     "paths that wait at this very node have their flag cleared", "store",
+     "", "LB.impossible_and_or_merges[each(enumerate(LB.merge_nodes))[0]]",
+     ("False",),
+     [_NM, _STUCK, _IMP1, ("cmp", "P:next_node_class", "Eq",
+                           "each(enumerate(LB.merge_nodes))[1]", "1")], []),
+    ("and only those paths step over the node (each draws its own copy)",
+     "store", "", f"LB.puml_nodes[{_I}]",
+     (f"update_puml_graph_with_event_node(P:puml_graph,P:next_node_class,"
+      f"LB.puml_nodes[{_I}])[0]",),
+     [_NM, _STUCK, _IMP1, ("cmp", f"LB.merge_nodes[{_I}]", "Eq",
+                           "P:next_node_class", "1")], []),
+    ("", "store", "", f"LB.paths[{_I}]", ("P:next_node_class",),
+     [_NM, _STUCK, _IMP1, ("cmp", f"LB.merge_nodes[{_I}]", "Eq",
+                           "P:next_node_class", "1")], []),
+    ("the walk continues on the current path", "ret", "", "",
+     ("(LB.current_path_puml_node,LB.current_path)",),
+     [_NM, _STUCK, _IMP1, ("cmp", "LB.current_path", "Is", "None", "0")],
+     []),
+    ("another path's impossible merge: rotate until that path is current",
+     "ret", "", "",
+     ("LB.rotate_path(P:previous_node_class,P:previous_puml_node)",),
+     [_NM, _STUCK, _IMP0, _ANY1], []),
+    ("otherwise every node at which two or more paths wait becomes a "
+     "partial merge (most common first)", "call", "update", "set()",
+     (f"LB.create_logic_merge(P:puml_graph,{_MC}[0])",),
+     [_NM, _STUCK, _IMP0, _ANY0, ("cmp", f"{_MC}[1]", "Lt", "2", "0"),
+      ("cmp", f"{_MC}[0]", "Is", "None", "0")], []),
+    ("what the merged paths had drawn is removed", "call",
+     "remove_nodes_from", "P:puml_graph", ("set()",),
+     [_NM, _STUCK, _IMP0, _ANY0], []),
+    ("and the block starts its next path", "ret", "", "",
+     ("handle_logic_list_next_path(P:puml_graph,P:logic_list,LB.logic_node)",
+      ), [_NM, _STUCK, _IMP0, _ANY0], []),
+    ("a valid merge closes the path at the merge point; anything else "
+     "rotates to the next path", "ret", "", "",
+     (f"(phi(handle_reach_logic_merge_point({_ARGS4})[0]|handle_rotate_path("
+      f"{_ARGS4})[0]),phi(handle_reach_logic_merge_point({_ARGS4})[1]|"
+      f"handle_rotate_path({_ARGS4})[1]))",), [], []),
+]
